@@ -124,11 +124,22 @@ func (r *relayItems) Count() int {
 }
 
 // Get checks for a relay item by ID, and will stop the timeout with the
-// read lock held (to avoid a race between timeout stop and deletion).
+// lock held (to avoid a race between timeout stop and deletion).
 // It returns whether a timeout was stopped, and if the item was found.
+//
+// Stopping the timeout mutates the relayTimer, which has no lock of its own:
+// the two connection readers of a relayed call can both finish it at the same
+// moment (a cancel frame from the caller crossing the last response frame
+// from the callee look up the same item), so the stop is done under the
+// write lock. Lookups that do not stop the timeout only need the read lock.
 func (r *relayItems) Get(id uint32, stopTimeout bool) (_ relayItem, stopped bool, found bool) {
-	r.RLock()
-	defer r.RUnlock()
+	if stopTimeout {
+		r.Lock()
+		defer r.Unlock()
+	} else {
+		r.RLock()
+		defer r.RUnlock()
+	}
 
 	item, ok := r.items[id]
 	if !ok {
